@@ -40,10 +40,33 @@ type ResponseCache interface {
 
 type responseCache struct {
 	cache Cache
+	// refsSem serialises read-modify-write cycles of the variant indexes
+	// (a one-slot semaphore rather than a mutex, so that waiting for it is
+	// visible to testing/synctest).
+	refsSem chan struct{}
 }
 
 func NewResponseCache(cache Cache) *responseCache {
-	return &responseCache{cache}
+	return &responseCache{cache: cache, refsSem: make(chan struct{}, 1)}
+}
+
+// RefsUpdater is implemented by response caches that can apply a change to a
+// variant index atomically with respect to other such changes.
+type RefsUpdater interface {
+	// UpdateRefs replaces the index of urlKey by update(current index).
+	UpdateRefs(urlKey string, update func(current ResponseRefs) ResponseRefs) error
+}
+
+var _ RefsUpdater = (*responseCache)(nil)
+
+func (r *responseCache) UpdateRefs(
+	urlKey string,
+	update func(current ResponseRefs) ResponseRefs,
+) error {
+	r.refsSem <- struct{}{}
+	defer func() { <-r.refsSem }()
+	current, _ := r.GetRefs(urlKey) // absent or unreadable: start afresh
+	return r.SetRefs(urlKey, update(current))
 }
 
 var _ ResponseCache = (*responseCache)(nil)
